@@ -54,13 +54,26 @@ def main():
         step = 1 if n <= 6000 else 997
         hdr = list(range(min(n, 64)))
         body = list(range(64, n)) if small else gen.sample(rng, range(64, n), 400 if thorough else 60)
-        fl = faults(rep, wd, v[0], n, hdr + sorted(body), step)
+        # bytes with a structural role are always in the corruption set: RAT run counts and values (the two bytes after an
+        # escape byte), MGE run counts (every second byte of a run-length body)
+        struct = []
+        fmt = f["fields"]["fmt"]
+        if fmt == "RAT":
+            esc = f["data"][0]
+            at = [i for i in range(19, n - 2) if f["data"][i] == esc]
+            for i in at[:: max(1, len(at) // 12)][:14]:
+                struct += [i, i + 1, i + 2]
+        elif fmt == "MGE" and f["data"][18] == 0:
+            struct = list(range(51, n, 2))[:: max(1, (n - 51) // 2 // 12)][:14]
+        struct = sorted({p for p in struct if 0 <= p < n})
+        fl = faults(rep, wd, v[0], n, sorted(set(hdr + sorted(body) + struct)), step)
         if not thorough:
             tr = [x for x in fl if x[0] == "truncate"]
             co = [x for x in fl if x[0] == "corrupt"]
             ap = [x for x in fl if x[0] == "append"]
             tr = tr if len(tr) <= 200 else [x for x in tr if x[1] < 60 or x[1] > n - 30] + gen.sample(rng, tr, 110)
-            co = [x for x in co if x[1] < 52 and x[2] in (0, 255, 256, 128)] + gen.sample(rng, [x for x in co if x[1] >= 52], 150)
+            co = [x for x in co if x[1] < 52 and x[2] in (0, 255, 256, 128)] + [x for x in co if x[1] >= 52 and x[1] in struct] \
+                + gen.sample(rng, [x for x in co if x[1] >= 52 and x[1] not in struct], 150)
             fl = tr + co + ap
         for kind, pos, val in fl:
             d = apply(f["data"], kind, pos, val)
